@@ -19,6 +19,44 @@ from simkit.net import Policy
 from gallia.commands.scan.uds.sessions import SessionsScanner, SessionsScannerConfig
 
 
+def encode_ranges(rng: Any, ids: list[int]) -> list[str]:
+    """The id set written the way the command line accepts it: runs as 'a-b', singles, hex or decimal, in any order,
+    with repeated and overlapping elements.  Built from the set, so the set is the ground truth whatever a parser does."""
+    ids = sorted(set(ids))
+    runs: list[list[int]] = []
+    for x in ids:
+        if runs and runs[-1][-1] == x - 1:
+            runs[-1].append(x)
+        else:
+            runs.append([x])
+
+    def num(x: int) -> str:
+        return rng.choice([f"{x:#x}", f"{x:#04x}", str(x)])
+
+    elems: list[str] = []
+    for r in runs:
+        if len(r) == 1:
+            elems.append(num(r[0]))
+        elif len(r) == 2 and rng.random() < 0.5:
+            elems += [num(r[0]), num(r[1])]
+        else:
+            elems.append(f"{num(r[0])}-{num(r[-1])}")
+            # overlapping / repeated parts of the same run
+            for _ in range(rng.choice([0, 1, 2])):
+                a = rng.choice(r)
+                b = rng.choice([y for y in r if y >= a])
+                elems.append(num(a) if a == b or rng.random() < 0.4 else f"{num(a)}-{num(b)}")
+    rng.shuffle(elems)
+    # some elements joined by commas inside one argument
+    out: list[str] = []
+    for e in elems:
+        if out and rng.random() < 0.3:
+            out[-1] = out[-1] + "," + e
+        else:
+            out.append(e)
+    return out
+
+
 def reachable(graph: dict[int, list[int]], depth: int, skip: set[int]) -> tuple[set[int], dict[int, int]]:
     """Sessions with a path of length 1..depth from session 1, never touching skipped sessions."""
     frontier = {1}
@@ -127,6 +165,14 @@ class C09(Check):
         if nb and rng.random() < 0.15:
             # the numeric neighbour below a session offered by the default session (candidates are tried in numeric order)
             plan["skip"] = sorted(set(plan["skip"]) | {rng.choice(nb)})
+        plan["skip_expr"] = None
+        if plan["skip"] and rng.random() < 0.4:
+            # as on the command line: range expressions; a third of them with a block of consecutive ids around a skipped one
+            if rng.random() < 0.5:
+                x = rng.choice([s for s in plan["skip"] if s != 1] or [0x40])
+                lo = max(2, x - rng.randrange(0, 12))
+                plan["skip"] = sorted(set(plan["skip"]) | set(range(lo, min(0x7E, x + rng.randrange(1, 30)) + 1)))
+            plan["skip_expr"] = encode_ranges(rng, plan["skip"])
         plan["reset"] = rng.random() < 0.2
         plan["offer_reset"] = rng.random() < 0.8
         plan["db"] = rng.random() < 0.4
@@ -154,9 +200,14 @@ class C09(Check):
                 p = copy.deepcopy(plan)
                 p[key] = val
                 yield p
+        if plan.get("skip_expr"):
+            p = copy.deepcopy(plan)
+            p["skip_expr"] = None
+            yield p
         if plan["skip"]:
             p = copy.deepcopy(plan)
             p["skip"] = []
+            p["skip_expr"] = None
             yield p
         g = plan["graph"]
         for s in list(g):
@@ -197,7 +248,7 @@ class C09(Check):
         if plan["db"]:
             kw["db"] = tmp / "db.sqlite"
         cfg = SessionsScannerConfig(
-            target="tcp-lines://ecu:1", dumpcap=False, depth=plan["depth"], skip=plan["skip"], thorough=plan["thorough"],
+            target="tcp-lines://ecu:1", dumpcap=False, depth=plan["depth"], skip=plan.get("skip_expr") or plan["skip"], thorough=plan["thorough"],
             reset=1 if plan["reset"] else None, sleep=plan["sleep"], tester_present=plan["tp"] is not None,
             tester_present_interval=plan["tp"] or 0.5, timeout=2.0, **kw,
         )
@@ -307,6 +358,8 @@ class C09(Check):
             bump(res["faults"], "reset_between_probes")
         if plan.get("prior_depth"):
             bump(res["faults"], "earlier_scan_in_same_database")
+        if plan.get("skip_expr"):
+            bump(res["faults"], "skip_as_range_expression")
         if 1 in skip:
             bump(res["faults"], "default_session_skipped")
         if plan["tp"] is not None:
